@@ -69,28 +69,28 @@ impl<F: CoordFloat> InterpolatableLine<F> for Line<F> {
 //@ret r
 //@spec
         ensures r == (if ratio.val() <= 0 { Point(self.start) } else if ratio.val() >= 1 { Point(self.end) } else { m_at_ratio(self.start, self.end, ratio.val()) }),
-//@before 1 `if ratio <= F::zero() {`
+//@entry
         proof { F::ax_obeys(); F::ax_order(); }
 //@end
 //@fn geo/src/algorithm/line_measures/interpolate_line.rs | impl<F: CoordFloat> InterpolatableLine<F> for Line<F> | point_at_ratio_from_end | id=C15.V.line_ratio_from_end
 //@ret r
 //@spec
         ensures r == (if ratio.val() <= 0 { Point(self.end) } else if ratio.val() >= 1 { Point(self.start) } else { m_at_ratio(self.end, self.start, ratio.val()) }),
-//@before 1 `if ratio <= F::zero() {`
+//@entry
         proof { F::ax_obeys(); F::ax_order(); }
 //@end
 //@fn geo/src/algorithm/line_measures/interpolate_line.rs | impl<F: CoordFloat> InterpolatableLine<F> for Line<F> | point_at_distance_from_start | id=C15.V.line_distance_from_start
 //@ret r
 //@spec
         ensures r == (if distance.val() <= 0 { Point(self.start) } else if distance.val() >= m_len(self.start, self.end) { Point(self.end) } else { m_at_distance(self.start, self.end, distance.val()) }),
-//@before 1 `if distance <= F::zero() {`
+//@entry
         proof { F::ax_obeys(); F::ax_order(); }
 //@end
 //@fn geo/src/algorithm/line_measures/interpolate_line.rs | impl<F: CoordFloat> InterpolatableLine<F> for Line<F> | point_at_distance_from_end | id=C15.V.line_distance_from_end
 //@ret r
 //@spec
         ensures r == (if distance.val() <= 0 { Point(self.end) } else if distance.val() >= m_len(self.start, self.end) { Point(self.start) } else { m_at_distance(self.end, self.start, distance.val()) }),
-//@before 1 `if distance <= F::zero() {`
+//@entry
         proof { F::ax_obeys(); F::ax_order(); }
 //@end
 }
@@ -110,7 +110,7 @@ impl<F: CoordFloat> InterpolatableLineString<F> for LineString<F> {
             (r is None) == (self.0@.len() == 0),
             // a positive distance that ends inside some segment: the arc-length walk from segment 0
             distance.val() > 0 && walk(self.0@, 0, distance.val()) is Some ==> r == walk(self.0@, 0, distance.val()),
-//@before 1 `if distance <= F::zero() {`
+//@entry
         proof { F::ax_obeys(); F::ax_order(); F::ax_ring(); }
 //@loop 1 it
             invariant
